@@ -228,6 +228,15 @@ func (c04) Gen(rng *rand.Rand, tier string, idx int) Case {
 			for _, w := range which {
 				c.Ops = append(c.Ops, append([]string{"enc", w}, t...))
 			}
+			// the session key of the same tuple handed over as a Go struct with string fields (window package API)
+			allStr := len(t) >= 1 && len(t) <= 3
+			for _, tok := range t {
+				allStr = allStr && strings.HasPrefix(tok, "s:")
+			}
+			if allStr {
+				c.Ops = append(c.Ops, append([]string{"enc", "sessionS"}, t...))
+				c.Stat = append(c.Stat, "session-key-of-struct-row")
+			}
 		}
 	default:
 		if mode == "agg" && arity > 0 && rng.Intn(4) == 0 {
@@ -238,6 +247,21 @@ func (c04) Gen(rng *rand.Rand, tier string, idx int) Case {
 		if mode == "cnt" || mode == "glb" {
 			n = []int{1, 2, 2, 3}[rng.Intn(4)]
 			c.Cfg = append(c.Cfg, []string{"n", strconv.Itoa(n)}, []string{"alias", strconv.Itoa(rng.Intn(8))}, []string{"bq", strconv.Itoa(rng.Intn(3) / 2)}) // bit i: group column i is selected AS k<i> (mixes of aliased and bare columns)
+		}
+		if mode == "ses" && arity >= 1 && arity <= 3 && rng.Intn(3) == 0 {
+			// rows handed to the session window as Go structs with string fields (window package API; the SQL engine feeds
+			// maps): every key value of the case is a text, the non-texts of the pool become texts that need escaping
+			for i, t := range pool {
+				t = append([]string(nil), t...)
+				for j, tok := range t {
+					if !strings.HasPrefix(tok, "s:") {
+						t[j] = "s:" + hx([]string{"\\N", "a|b", "|", "\\", "n"}[rng.Intn(5)])
+					}
+				}
+				pool[i] = t
+			}
+			c.Cfg = append(c.Cfg, []string{"structrows", "1"})
+			c.Stat = append(c.Stat, "session-struct-rows")
 		}
 		nrows := 4 + rng.Intn(14)
 		for i := 0; i < nrows; i++ {
@@ -659,6 +683,12 @@ func c04Enc(which string, toks []string) string {
 		return window.VerifCountingKey(cw, row)
 	case "session":
 		return window.VerifSessionKey(row, keys)
+	case "sessionS":
+		sk := make([]string, len(toks))
+		for i := range sk {
+			sk[i] = "G" + strconv.Itoa(i)
+		}
+		return window.VerifSessionKey(c04StructRow(0, toks), sk)
 	default:
 		gw, err := window.NewGlobalWindow(types.WindowConfig{GroupByKeys: keys, TriggerCondition: "count(*) >= 1",
 			SelectFields: map[string]aggregator.AggregateType{"c": aggregator.Count}, FieldAlias: map[string]string{"c": "*"}})
@@ -811,8 +841,47 @@ func c04SQL(mode string, arity, n int, alias int, rows [][]string) [][]string {
 // c04Session drives a real SessionWindow without its goroutine: Add every row (one session per encoded key, the
 // one-hour gap never expires), Trigger() hands out one batch per session; every batch goes through a fresh
 // GroupAggregator as stream.processWindowBatch does.
+// struct rows of the session window (cfg structrows): exported string fields G0…, the row number in Id
+type c04S1 struct {
+	Id int
+	G0 string
+}
+type c04S2 struct {
+	Id     int
+	G0, G1 string
+}
+type c04S3 struct {
+	Id         int
+	G0, G1, G2 string
+}
+
+var c04StructRows bool
+
+func c04StructRow(id int, toks []string) interface{} {
+	v := make([]string, 3)
+	for i, t := range toks {
+		if x, ok := c04TokVal(t); ok {
+			v[i], _ = x.(string)
+		}
+	}
+	switch len(toks) {
+	case 1:
+		return c04S1{id, v[0]}
+	case 2:
+		return c04S2{id, v[0], v[1]}
+	}
+	return c04S3{id, v[0], v[1], v[2]}
+}
+
 func c04Session(arity int, rows [][]string) [][]string {
 	gf := c04GroupFields(arity)
+	idField := "id"
+	if c04StructRows {
+		for i := range gf {
+			gf[i] = "G" + strconv.Itoa(i)
+		}
+		idField = "Id"
+	}
 	sw, err := window.NewSessionWindow(types.WindowConfig{Params: []interface{}{"1h"}, GroupByKeys: gf})
 	if err != nil {
 		return [][]string{{"ctor-error", hx(err.Error())}}
@@ -820,7 +889,11 @@ func c04Session(arity int, rows [][]string) [][]string {
 	defer sw.Stop()
 	for _, t := range rows {
 		id, _ := strconv.Atoi(t[0])
-		sw.Add(c04Row(id, t[1:]))
+		if c04StructRows {
+			sw.Add(c04StructRow(id, t[1:]))
+		} else {
+			sw.Add(c04Row(id, t[1:]))
+		}
 	}
 	sw.Trigger()
 	var ls [][]string
@@ -829,7 +902,7 @@ func c04Session(arity int, rows [][]string) [][]string {
 		case batch := <-sw.OutputChan():
 			ga := aggregator.NewGroupAggregator(gf, []aggregator.AggregationField{
 				{InputField: "*", AggregateType: aggregator.Count, OutputAlias: "c"},
-				{InputField: "id", AggregateType: aggregator.Collect, OutputAlias: "ids"}})
+				{InputField: idField, AggregateType: aggregator.Collect, OutputAlias: "ids"}})
 			for _, r := range batch {
 				if err := ga.Add(r.Data); err != nil {
 					ls = append(ls, []string{"add-error", hx(err.Error())})
@@ -887,7 +960,9 @@ func (c04) Exec(c Case) [][][]string {
 				}
 				out = append(out, c04SortLines(ls))
 			case "ses":
+				c04StructRows = c04CfgVal(c, "structrows", "0") == "1"
 				out = append(out, c04Session(arity, rows))
+				c04StructRows = false
 			case "dcnt":
 				var fns []string
 				var raws [][]string
